@@ -97,6 +97,9 @@ def audit(cfg, crate, cname, rep):
         n += len(ts)
         ent = AUDIT.get(key)
         k = "%s|%s|%s|%s" % (cfg, key[0], key[1], key[2])
+        if ent is None and key[2] == "assert:Overflow(Mul)" and len_times_small(crate, key[1], len(ts)):
+            rep.ob("C10.audit", k + "|len-times-constant", True, "overflow check of `<buffer>.len() * c` with c <= 8: an in-memory buffer is far shorter than usize::MAX / 8")
+            continue
         if ent is None:
             rep.fail("C10.audit", k, "unaudited panic site: %d occurrence(s) of %s in %s; reachable panics must be replaced by an Err return or audited" % (len(ts), key[2], key[1]), sp=ts[0].get("sp"))
             continue
@@ -105,6 +108,23 @@ def audit(cfg, crate, cname, rep):
         ok, detail = mechanised(cfg, crate, key, cls, ts)
         rep.ob("C10.audit", k + "|" + cls, ok, "%s: %s%s" % (cls, reason, ("; " + detail) if detail else ""), sp=ts[0].get("sp"))
     return n
+
+
+def len_times_small(crate, fn, count):
+    """Every multiplication in `fn` (closures included) is `<x>.len() * c` / `c * <x>.len()` with a literal c <= 8."""
+    bodies = [b for k_, b in crate.bodies.items() if (k_ == fn) and "hir" in b]
+    if not bodies:
+        return False
+    muls = [n for n in common.hir_walk(bodies[0]["hir"]) if n["k"] == "Binary" and n["op"] == "*"]
+    if len(muls) < count or not muls:
+        return False
+    def is_len(e):
+        while e["k"] in ("AddrOf", "Unary", "Cast"):
+            e = e["e"]
+        return e["k"] == "MethodCall" and e["name"] == "len"
+    def small(e):
+        return e["k"] == "Lit" and isinstance(e.get("v"), int) and 0 < e["v"] <= 8
+    return all((is_len(m["l"]) and small(m["r"])) or (is_len(m["r"]) and small(m["l"])) for m in muls)
 
 
 def mechanised(cfg, crate, key, cls, ts):
@@ -213,7 +233,7 @@ def sinks(cfg, crate, rep):
                     n += 1
                     via = calls_of(arg)
                     ok = any(v.endswith("string::Ia5String::as_str") or v.endswith("Ia5String as std::convert::AsRef<str>>::as_ref") for v in via)
-                    rep.ob("C10.sinks", "write_ia5_string|%s|%s" % (where, "+".join(sorted(_gen(p) for p in places(arg)))), ok,
+                    rep.ob("C10.sinks", "write_ia5_string|%s" % "+".join(sorted({_gen(p) for p in places(arg)})), ok,
                            "yasna's write_ia5_string asserts ASCII: a plain String reaches it, so a caller-constructible non-ASCII value panics during serialisation (the argument does not come from a validated Ia5String)",
                            expected="argument obtained through Ia5String::as_str", found=core(arg).r()[:160], sp=node.get("sp"))
                 elif m == "write_printable_string":
@@ -223,7 +243,7 @@ def sinks(cfg, crate, rep):
                     alpha = printable_alphabet(crate)
                     contained = alpha is not None and alpha <= YASNA_PRINTABLE
                     extra = sorted(chr(x) for x in (alpha - YASNA_PRINTABLE)) if alpha is not None else None
-                    rep.ob("C10.sinks", "write_printable_string|%s" % where, wrapped and contained,
+                    rep.ob("C10.sinks", "write_printable_string", wrapped and contained,
                            "yasna's write_printable_string asserts its own alphabet, which lacks %s that rcgen's PrintableString admits: a valid PrintableString containing it panics during serialisation" % extra,
                            expected="wrapper alphabet contained in the sink's", found="admitted but not writable: %s" % extra, sp=node.get("sp"))
                 elif m == "write_oid":
@@ -236,37 +256,26 @@ def sinks(cfg, crate, rep):
                 n += 1
                 kids = S.flatten(node["c"])
                 ok = len(kids) == len(node["nexts"])
-                rep.ob("C10.sinks", "%s|%s-elements|%s" % (cfg, node["t"], node.get("fn")), ok, "every element writer obtained from a SET / SET OF writer is written to (yasna asserts non-empty elements)", expected=len(node["nexts"]), found=len(kids), sp=node.get("sp"))
+                rep.ob("C10.sinks", "%s|%s-elements|%s" % (cfg, node["t"], fn.split("::")[-1]), ok, "every element writer obtained from a SET / SET OF writer is written to (yasna asserts non-empty elements)", expected=len(node["nexts"]), found=len(kids), sp=node.get("sp"))
     rep.floor("C10.sinks", "asserting sink call sites in the artefact trees (%s)" % cfg, n, 40)
 
 
 def _gen(p):
-    """Generalise a place to its type-level tail (selectors after the last element marker) so that one code
-    site has one key no matter through which artefact / list it is reached."""
+    """Type-level source of a place, independent of the artefact, the list it sits in and the function that writes it:
+    `<list field>[]<selectors after the element>` or '<field>'."""
     p = p.replace("DistinguishedName::iter(", "").replace(")", "")
     if "[]" in p:
-        return "[]" + p.rsplit("[]", 1)[1]
+        head, tail = p.rsplit("[]", 1)
+        fld = head.rsplit(".", 1)[-1]
+        fld = {"permitted_subtrees": "subtrees", "excluded_subtrees": "subtrees"}.get(fld, fld)
+        return fld + "[]" + tail
     return "<field>"
 
 
 def printable_alphabet(crate):
-    """Set of bytes admitted by PrintableString's validating constructor (union of the accepting arm's patterns)."""
-    fn = "string::<impl std::convert::TryFrom<std::string::String> for string::PrintableString>::try_from"
-    b = crate.bodies.get(fn)
-    if b is None:
-        for k in crate.bodies:
-            if "PrintableString" in k and k.endswith("::try_from") and "String>" in k and "&str" not in k:
-                b = crate.bodies[k]
-                fn = k
-    if b is None:
-        return None
-    acc = set()
-    for n in common.hir_walk(b["hir"]):
-        if n["k"] == "Match":
-            for a in n["arms"]:
-                if a["body"]["k"] == "Tup" or (a["body"]["k"] == "Block" and not a["body"]["stmts"] and a["body"].get("expr") is None):
-                    acc |= pat_bytes(a["pat"])
-    return acc or None
+    """Set of bytes admitted by PrintableString's validating constructor (computed from its rejection formula)."""
+    import bytepred
+    return bytepred.byte_acceptance(crate, "<string::PrintableString as std::convert::TryFrom<std::string::String>>::try_from")[0]
 
 
 def pat_bytes(p):
@@ -320,20 +329,20 @@ def oid_sink(cfg, crate, art, node, arg, where, rep):
         call = alt[2] if len(alt) > 2 else None
         c = J.concrete(x)
         if c is not None:
-            rep.ob("C10.sinks", "write_oid|%s|const:%s" % (where, ".".join(str(i) for i in c) if isinstance(c, list) else c), oid_ok(c), "constant OID satisfies write_oid's precondition", found=c, sp=node.get("sp"))
+            rep.ob("C10.sinks", "write_oid|const:%s" % ( ".".join(str(i) for i in c) if isinstance(c, list) else c), oid_ok(c), "constant OID satisfies write_oid's precondition", found=c, sp=node.get("sp"))
             continue
         pl = places(x)
         src = "+".join(sorted(_gen(p) for p in pl))
         if call is not None:
-            src = "%s:%s" % (call.callee.split("::")[-2] + "::" + call.callee.split("::")[-1], "+".join(sorted(pl)))
+            src = "%s:%s" % (call.callee.split("::")[-2] + "::" + call.callee.split("::")[-1], "+".join(sorted(x.replace("self", "", 1) for x in pl)))
         # fields of a &'static SignatureAlgorithm are discharged by the evaluated statics
         if pl and all((".alg." in p or p.endswith(".alg") or "PublicKeyData::algorithm" in core(x).r() or p.startswith("self.oid_components") or p.startswith("self.oids_sign_alg") or "alg.params" in p) for p in pl) and ("alg" in core(x).r()):
-            rep.ob("C10.sinks", "write_oid|%s|%s" % (where, src), True, "OID comes from an algorithm static (all evaluated by algorithm-static-oids)")
+            rep.ob("C10.sinks", "write_oid|%s" % src, True, "OID comes from an algorithm static (all evaluated by algorithm-static-oids)")
             continue
         if call is not None and call.callee.endswith("alg_ident_oid"):
-            rep.ob("C10.sinks", "write_oid|%s|%s" % (where, src), True, "OID comes from an algorithm static")
+            rep.ob("C10.sinks", "write_oid|%s" % src, True, "OID comes from an algorithm static")
             continue
-        rep.fail("C10.sinks", "write_oid|%s|%s" % (where, src),
+        rep.fail("C10.sinks", "write_oid|%s" % src,
                  "yasna's write_oid asserts `>= 2 arcs, first < 3, second < 40 unless first == 2`: a caller-supplied component list reaches it unvalidated, so e.g. an empty or one-element OID panics during serialisation",
                  expected="a crate constant or a validated OID type", found=core(x).r()[:160], sp=node.get("sp"))
 
@@ -375,12 +384,12 @@ def time_sink(cfg, art, node, arg, cond, where, rep):
             ats = list(year_atoms)
             on_utc = ok_all
         stripped = "dt_strip_nanos" in calls_of(arg)
-        rep.ob("C10.sinks", "UTCTime::from_datetime|%s" % where, bool(ats) and on_utc and stripped,
+        rep.ob("C10.sinks", "UTCTime::from_datetime", bool(ats) and on_utc and stripped,
                "UTCTime::from_datetime asserts UTC year 1950..=2049 and zero nanoseconds: the call must be dominated by that very test on the UTC-normalised value and receive the truncated value",
                found="dominating range test on UTC value: %s, truncated: %s" % (on_utc, stripped), sp=node.get("sp"))
     else:
         ats = [a for a in F.atoms(cond) if a[0] in ("inrange", "cmp") and ("9999" in str(a) or "10000" in str(a))]
-        rep.ob("C10.sinks", "GeneralizedTime::from_datetime|%s" % where, bool(ats),
+        rep.ob("C10.sinks", "GeneralizedTime::from_datetime", bool(ats),
                "GeneralizedTime::from_datetime asserts UTC year 0..=9999: nothing bounds the year on this path, so a date in a negative year (the time type admits -9999..=9999) panics during serialisation instead of returning Err",
                expected="a dominating year-range test or an Err return", found="no bound on the year", sp=node.get("sp"))
 
